@@ -1017,7 +1017,10 @@ pub(crate) struct HomeRelayWatch {
     inner: Watchable<Option<RelayStatus>>,
     /// Serializes writers: [`Self::set_status`] is a read-check-write that must not
     /// interleave with [`Self::set`] or [`Self::clear`] running on another thread.
+    #[cfg(not(iroh_verif))]
     write_lock: Arc<std::sync::Mutex<()>>,
+    #[cfg(iroh_verif)]
+    write_lock: Arc<iroh_base::verif::sync::Mutex<()>>,
 }
 
 impl Default for HomeRelayWatch {
